@@ -35,7 +35,7 @@ open PyGql
 """
 
 
-def _file(origin, parts):
+def _file(origin, parts, note=None):
     """parts: list of (lean text, python source, constructs)"""
     lines = [py2lean.header(origin).rstrip("\n")]
     cons = sorted({c for _, _, cs in parts for c in cs})
@@ -43,6 +43,8 @@ def _file(origin, parts):
     lines += ["     * " + c for c in cons]
     lines.append("   Types: str -> List Nat (code points), int -> Int, one character -> Nat; result `Except String _`,")
     lines.append("   the string being the class of the exception raised. See lean/PyGqlModel/PyPrelude.lean. -/")
+    if note:
+        lines.append(note)
     lines.append(HEAD)
     for text, src, _ in parts:
         lines.append("/-\n" + src.replace("-/", "- /") + "\n-/")
@@ -60,12 +62,55 @@ def tr_index_to_loc(ctx):
     return {"PyGqlModel/Generated/TrIndexToLoc.lean": _file("src/py_gql/_string_utils.py (index_to_loc, loc_to_index)", parts)}
 
 
+# ---- utilities/collect_fields.py: _skip_selection, _fragment_type_applies (C04, C05, C19) ---------------
+
+def OP(n):
+    return ("Opaque", n)
+
+
+def tr_collect(ctx):
+    src = SRC("utilities/collect_fields.py")
+    # the two directive constants are what their names say (live objects of the tree under test)
+    from py_gql.schema import IncludeDirective, SkipDirective
+    if (SkipDirective.name, IncludeDirective.name) != ("skip", "include"):
+        raise Untranslatable("SkipDirective / IncludeDirective are no longer @skip / @include")
+    skip = py2lean.translate_function(
+        src, "_skip_selection", "_skip_selection", ret=BOOL, generic_exc=True,
+        params={"node": OP("N"), "variables": OP("V")},
+        binders="{ε N V : Type} (exc : String → ε) (directive_arguments : String → N → V → Except ε (Option Bool)) "
+                "(node : N) (variables : V)",
+        externals={"directive_arguments": Ext("directive_arguments", ("Option", BOOL), partial=True, kw=("variables",))},
+        consts={"SkipDirective": ('"skip"', OP("String")), "IncludeDirective": ('"include"', OP("String"))},
+        attrs={"['if']": BOOL})
+    applies = py2lean.translate_function(
+        src, "_fragment_type_applies", "_fragment_type_applies", ret=BOOL, generic_exc=True,
+        params={"object_type": OP("T")},
+        binders="{ε T C : Type} [BEq T] (exc : String → ε) (get_type_from_literal : Option C → Except ε T) "
+                "(isAbstract : T → Bool) (is_possible_type : T → T → Bool) (object_type : T) (type_condition : Option C)",
+        externals={"schema.get_type_from_literal": Ext("get_type_from_literal", OP("T"), partial=True),
+                   "schema.is_possible_type": Ext("is_possible_type", BOOL)},
+        isinstance_map={"GraphQLAbstractType": "isAbstract"},
+        attrs={"fragment.type_condition": ("type_condition", ("Option", OP("C")))})
+    note = ("/- Abstracted over their environment: `directive_arguments(D, node, variables=...)` (D = SkipDirective / IncludeDirective,\n"
+            "   passed as the directive NAME) returns the coerced `if` argument or None; `schema.get_type_from_literal`,\n"
+            "   `isinstance(_, GraphQLAbstractType)`, `schema.is_possible_type` are parameters; `fragment.type_condition` is the\n"
+            "   parameter `type_condition`; exceptions of the callees have the abstract type ε. -/")
+    return {"PyGqlModel/Generated/TrCollect.lean":
+            _file("src/py_gql/utilities/collect_fields.py (_skip_selection, _fragment_type_applies)", [skip, applies], note)}
+
+
 EXTRA = {
     "C01": tr_index_to_loc,
     "C10": tr_index_to_loc,
+    "C04": tr_collect,
+    "C05": tr_collect,
+    "C19": tr_collect,
 }
 
 GENERATED = {
     "C01": ["PyGqlModel/Generated/TrIndexToLoc.lean"],
     "C10": ["PyGqlModel/Generated/TrIndexToLoc.lean"],
+    "C04": ["PyGqlModel/Generated/TrCollect.lean"],
+    "C05": ["PyGqlModel/Generated/TrCollect.lean"],
+    "C19": ["PyGqlModel/Generated/TrCollect.lean"],
 }
